@@ -277,6 +277,11 @@ func c09Resend(c *Ctx, v *vocab) {
 			}
 		}
 		r.Check(key, bad == nil && (nLoop > 0 || !accepted), fi.Decl.Pos(), len(in.Traces), why, c.witness(bad)...)
+		if accepted {
+			w, n := iterationWithoutSend(in.Traces, and(callTo(v.csAll), argConstInt(0, v.outgoing)), or(callTo(v.cSend), callTo(v.connSend)))
+			r.Check(fi.Name+":every stored packet is resent", w == nil && n > 0, fi.Decl.Pos(), len(in.Traces),
+				"an iteration of the resend loop completes without sending the stored packet (a stored PUBREL or PUBLISH is skipped: its flow never finishes and its future never resolves)", c.witness(w)...)
+		}
 	}
 	// the resend loop distinguishes publishes
 	in := c.traces(fi)
@@ -951,6 +956,9 @@ func propC17(c *Ctx) string {
 	c09WaitGo(c, v, "C17")
 	c09WaitLock(c, v, "C17")
 	dieRule(c, v, "C17/DIE", "client", 8)
+	c17Resub(c, v)
+	// futures survive reconnects only if the resumed session's packets are all retransmitted
+	c09Resend(c, v)
 	c.NotDecide("behaviour over failure schedules", "Start/Stop races from several goroutines", "backoff timing", "that the broker accepts the resubscription")
 	c.Assume("topic.Tree Set/Empty/All semantics (C05)", "future.Attach propagates completion (client/future)")
 	return c17Explanation
@@ -1621,4 +1629,88 @@ func c09WaitLock(c *Ctx, v *vocab, prop string) {
 	if n == 0 {
 		r.Undecided("client wait sites", 0, "no tomb.Wait/Await under a mutex found (Close/Disconnect reshaped?)")
 	}
+}
+
+// iterationWithoutSend looks, on every trace, at the first range loop after the listing call and returns a trace
+// on which one of its iterations runs to the loop end without a send event (n = iterations inspected).
+func iterationWithoutSend(traces []*Trace, listing, send Pred) (*Trace, int) {
+	n := 0
+	for _, t := range traces {
+		all := t.first(listing)
+		if all < 0 {
+			continue
+		}
+		var loop ast.Stmt
+		begin := -1
+		sent := false
+		for i := all; i < len(t.Ev); i++ {
+			e := t.Ev[i]
+			switch {
+			case e.Kind == EvLoopBegin && (loop == nil || e.LoopStmt == loop):
+				if _, isRange := e.LoopStmt.(*ast.RangeStmt); isRange {
+					loop, begin, sent = e.LoopStmt, i, false
+				}
+			case e.Kind == EvLoopEnd && loop != nil && e.LoopStmt == loop && begin >= 0:
+				n++
+				if !sent {
+					return t, n
+				}
+				begin = -1
+			case begin >= 0 && send(e):
+				sent = true
+			}
+		}
+	}
+	return nil, n
+}
+
+// c17Resub: with ResubscribeAllSubscriptions set, every connection the supervisor hands to the dispatcher has been
+// resubscribed first — whatever the broker said about session-present (a broker may report a resumed session that
+// no longer holds the subscriptions). Evaluated with the flag fixed to true: any path to the dispatcher without the
+// resubscribe call depends on some other condition.
+func c17Resub(c *Ctx, v *vocab) {
+	r := c.Rule("C17/RESUB", "TRACE", "supervisor, ResubscribeAllSubscriptions=true: resubscribe(client) precedes dispatcher(client) on every path, independent of the session-present flag; a failed resubscription does not reach the dispatcher", 1)
+	fi := c.mustFunc(r, "client.(*Service).supervisor")
+	flag := c.P.Field("client", "Service", "ResubscribeAllSubscriptions")
+	resub := c.P.Method("client", "Service", "resubscribe")
+	disp := c.P.Method("client", "Service", "dispatcher")
+	if fi == nil || flag == nil || resub == nil || disp == nil {
+		r.Undecided("client.(*Service).supervisor", 0, "anchors not found (flag, resubscribe, dispatcher)")
+		return
+	}
+	in := c.P.TraceFunc(fi, TraceOpts{Init: map[types.Object]Val{flag: vBool(true)}})
+	if c.undecidedIfOver(r, in, fi.Name) {
+		return
+	}
+	var bad *Trace
+	why := ""
+	n := 0
+	for _, t := range in.Traces {
+		d := t.first(callTo(disp))
+		if d < 0 {
+			continue
+		}
+		n++
+		rs := t.first(callTo(resub))
+		if rs < 0 || rs > d {
+			bad, why = t, "the dispatcher is reached without a preceding resubscribe although the flag is set"
+			continue
+		}
+		// the resubscribe result must have been tested true
+		okRes := false
+		for _, e := range t.Ev[rs:d] {
+			if (e.Kind == EvCond || e.Kind == EvOutcome) && e.Cond != nil {
+				if call, isC := ast.Unparen(e.Cond).(*ast.CallExpr); isC && typeutilCallee(fi.Pkg.TypesInfo, call) == types.Object(resub) && e.Outcome {
+					okRes = true
+				}
+				if e.DefCall == t.Ev[rs] && e.Outcome {
+					okRes = true
+				}
+			}
+		}
+		if !okRes {
+			bad, why = t, "the dispatcher is reached although resubscribe was not confirmed successful"
+		}
+	}
+	r.Check(fi.Name+":resubscribe≺dispatcher@flag=true", bad == nil && n > 0, fi.Decl.Pos(), len(in.Traces), why, c.witness(bad)...)
 }
